@@ -45,6 +45,14 @@ def firstBad (m : Pomdp) : Nat → VList → List VList → Option (Nat × Strin
     else if !(cur.all (fun e => entryValsB (closeQ tol) m prev e)) then some (h, "not_one_step_plan", levelDev m prev cur)
     else firstBad m (h + 1) cur rest
 
+/-- the verdict is DECIDED by the proved checker `consistentFrom (closeQ tol)` (`approxCheck_sound`, `checked_exec_bound`);
+    `firstBad` only names the first failing clause for the message -/
+def checkLevels (m : Pomdp) (v0 : VList) (rest : List VList) : Option (Nat × String × Rat) :=
+  if consistentFrom (closeQ tol) m v0 rest then none
+  else match firstBad m 1 v0 rest with
+    | some r => some r
+    | none => some (0, "checker_rejects", 0)
+
 def qstr (q : Rat) : String :=
   -- short decimal rendering for messages only
   let s := if q < 0 then "-" else ""
@@ -58,16 +66,28 @@ def vf : P String := do
   let m ← pomdpP; P.bar
   let v ← vfP; P.bar
   let bqs ← P.list bqP; P.bar
-  let status ← P.bool; let seq ← pairsP; P.eof
+  let status ← P.bool; let seq ← pairsP; P.bar
+  let ioStatus ← P.nat
+  let nQ ← P.nat
+  let hqs ← P.rep (do let bi ← P.nat; let h ← P.nat; let a ← P.nat; let id ← P.nat; let pok ← P.bool; pure (bi, h, a, id, pok)) nQ
+  P.eof
   let H := v.length - 1
   let top := vlist v H
   let vd : Verdict := { tag := s!"{comp} H{H}" }
   -- (1) the value function itself: shape, links, one-step derivation  (component = the solver)
   let vd := vd.failIf (v.isEmpty || (vlist v 0).isEmpty) s!"{comp} empty_value_function"
-  let bad := match v with | [] => none | v0 :: rest => firstBad m 1 v0 rest
+  let bad := match v with | [] => none | v0 :: rest => checkLevels m v0 rest
   let vd := match bad with
-    | some (h, what, dev) => vd.failIf true s!"{comp} {what} horizon={h} dev={qstr dev}"
+    | some (h, what, dev) =>
+      -- `qmdp_consistent_partial`: with VI horizon 1 QMDP's value function IS a plan; a break there is not the open finding
+      let what := if comp == "QMDP" && _hReq ≤ 1 && what == "not_one_step_plan" then "not_one_step_plan_h1" else what
+      vd.failIf true s!"{comp} {what} horizon={h} dev={qstr dev}"
     | none => vd
+  -- QMDP::fromQFunction: one entry per action, tagged with it, O links to the single horizon-0 entry (holds at every VI horizon)
+  let vd := if comp == "QMDP" && H == 1 then
+      vd.failIf (top.length != m.A || !((top.zipIdx).all (fun (e, a) => e.action == a && e.obs == List.replicate m.O 0)))
+        "QMDP entries_not_one_per_action"
+    else vd
   let shapeOK := bad.isNone || (match bad with | some (_, w, _) => w == "not_one_step_plan" | none => true)
   -- (2) Policy replay over all observation histories (component = Policy)
   let mseq := (List.range top.length).flatMap (fun id => replayAll m.O v H id)
@@ -87,19 +107,36 @@ def vf : P String := do
         let ex := execFast (cutModel m) v H q.id q.b
         vd.failIf (!(closeQ tol ex mine)) s!"{comp} exec_return_mismatch exec={qstr ex} promised={qstr mine}"
       else vd) vd
+  -- (4) the Policy at EVERY stored horizon h ≤ H: sampleAction(b, h) names an entry of horizon h, reports its action, that entry
+  --     attains max_id b·values of horizon h, getActionProbability is the indicator of that action, and executing the h-step plan
+  --     from it earns b·values (policy_episode); a Policy loaded back from a stream must behave identically
+  let vd := vd.failIf (ioStatus == 2) "Policy load_failed"
+  let vd := hqs.foldl (fun (vd : Verdict) (q : Nat × Nat × Nat × Nat × Bool) =>
+      let (bi, h, a, id, pok) := q
+      let bl := (bqs.getD bi ⟨[], 0, 0, 0⟩).b
+      let b := bfun bl
+      let lvl := vlist v h
+      if h > H || bi ≥ bqs.length then vd.failIf true s!"Policy bad_query h={h}" else
+      if id ≥ lvl.length then vd.failIf true s!"Policy id_out_of_range h={h} id={id}" else
+      let e := entryAt lvl id
+      let vd := vd.failIf (a != e.action) s!"Policy action_mismatch h={h} a={a} entry={e.action}"
+      let vd := vd.failIf (a ≥ m.A) s!"Policy action_out_of_range h={h} a={a}"
+      let vd := vd.failIf (!pok) s!"Policy action_probability_wrong h={h}"
+      let mine := dot m.S b (val e)
+      let best := envV m.S lvl b
+      let vd := vd.failIf (!(closeQ tol mine best) && mine < best) s!"Policy first_action_not_argmax h={h} got={qstr mine} max={qstr best}"
+      if shapeOK && h < H then
+        let ex := execFast (cutModel m) v h id bl
+        vd.failIf (!(closeQ tol ex mine)) s!"{comp} exec_return_mismatch h={h} exec={qstr ex} promised={qstr mine}"
+      else vd) vd
   -- statistics only: exact agreement, model's own argmax, greedy w.r.t. the look-ahead on the previous envelope
   let exact := match v with | [] => false | v0 :: rest => consistentFrom eqQ m v0 rest
   let zb := (List.range m.A).all (fun a => (List.range m.O).all (fun o => possible m a o ||
               (List.range m.S).all (fun s => decide (m.Ob a s o = 0))))
   let sameArg := bqs.all (fun q => (sampleActionB m v (bfun q.b) H) == (q.a, q.id))
   let vd := { vd with tag := vd.tag ++ (if exact then " exact" else " rounded") ++ (if sameArg then "" else " tie") ++ (if zb then "" else " subthreshold")
-                        ++ (if H == 0 then " trivial" else "") }
+                        ++ (if ioStatus == 1 then " loaded" else "") ++ (if H == 0 then " trivial" else "") }
   return vd.render
-
-/-- multiset inclusion of whole entries: `out` can be obtained from `inp` by deleting entries -/
-def subMultiset : List VEntry → List VEntry → Bool
-  | [], _ => true
-  | e :: out, inp => if inp.contains e then subMultiset out (inp.erase e) else false
 
 def xd : P String := do
   let S ← P.nat; let inp ← vlistP; P.bar; let out ← vlistP; P.eof
@@ -203,7 +240,11 @@ def condBest (S : Nat) (c : Cond) (rt : Bool) (b : Nat → Rat) (l : VList) : Co
   | _ =>
     let r := bestAtPoint S b l
     let be := entryAt l r.1
-    l.foldl (fun c e => if e.values == be.values then c else c.note rt r.2 (dot S b (val e))) c
+    -- an entry with the SAME vector but another action / other links is a tie as well: doubles reproduce it only when the
+    -- vectors are bit-exact (two actions' cross-sums may round differently), otherwise which duplicate wins is fragile
+    l.foldl (fun c e =>
+      if e.values == be.values then (if e == be || rt then c else { c with ties := c.ties + 1, fragile := true })
+      else c.note rt r.2 (dot S b (val e))) c
 
 /-- decisions of `crossSumBestAtBelief(b, projs[a], a)` for one action -/
 def condRow (m : Pomdp) (prev : VList) (c : Cond) (rt : Bool) (b : Nat → Rat) (a : Nat) : Cond :=
@@ -270,9 +311,9 @@ def execBad (m : Pomdp) (v : VF) (bs : List (List Rat)) : Option String :=
     if closeQ tol ex pr then none else some s!"exec_return_mismatch exec={qstr ex} promised={qstr pr}")
 
 /-- verdict of a whole-run comparison -/
-def wholeRun (comp : String) (m : Pomdp) (bs : List (List Rat)) (v mv : VF) (cond : Cond) : String :=
-  let vd : Verdict := { tag := comp.toLower }
-  let bad := match v with | [] => none | v0 :: rest => firstBad m 1 v0 rest
+def wholeRun (comp : String) (m : Pomdp) (bs : List (List Rat)) (v mv : VF) (cond : Cond) (tag : String := comp.toLower) : String :=
+  let vd : Verdict := { tag := tag }
+  let bad := match v with | [] => none | v0 :: rest => checkLevels m v0 rest
   let vd := match bad with
     | some (hh, what, dev) => vd.failIf true s!"{comp} {what} horizon={hh} dev={qstr dev}"
     | none => vd
@@ -291,6 +332,7 @@ def perseus : P String := do
   let v ← vfP; P.eof
   let mv := perseusRun m (bs.map bfun) v0 h
   let exact := match v with | [] => false | v0 :: rest => consistentFrom eqQ m v0 rest
+  let exact := exact && isPow2 m.O   -- R/|O| must be exact too: the stored vectors can be exact while the per-observation values were rounded
   let rtOf := fun (bl : List Rat) => exact && dyadicList bl
   let cond := condRun (fun prev c => condPerseusStep m rtOf prev bs c) mv
   return wholeRun "PERSEUS" m bs v mv cond
@@ -346,7 +388,7 @@ def ls : P String := do
   let lists ← P.list (P.list P.qs); P.eof
   let vd : Verdict := { tag := "ls" }
   -- property clauses on the implementation's own level
-  let vd := match firstBad m 1 prev [level] with
+  let vd := match checkLevels m prev [level] with
     | some (_, what, dev) => vd.failIf true s!"LinearSupport {what} dev={qstr dev}"
     | none => vd
   let st0 := lsCorners m prev (List.range m.S) ⟨[], [], [], []⟩
@@ -356,6 +398,7 @@ def ls : P String := do
   let fuel := lists.length + 2
   let mlevel := lsStep m 0 verts1 verts2 lsPopMax fuel prev
   let exact := levelB eqQ m prev level
+  let exact := exact && isPow2 m.O   -- R/|O| must be exact too: the stored vectors can be exact while the per-observation values were rounded
   let rtOf := fun (bl : List Rat) => exact && dyadicList bl
   let c0 : Cond := (List.range m.S).foldl (fun c s => condAll m prev c exact (fun i => if i = s then 1 else 0)) {}
   let cond := condLsLoop m prev rtOf verts2 fuel (verts1 []) st0 c0
@@ -372,9 +415,119 @@ def pbvi : P String := do
   let v ← vfP; P.eof
   let mv := pbviRun m (bs.map bfun) _h
   let exact := match v with | [] => false | v0 :: rest => consistentFrom eqQ m v0 rest
+  let exact := exact && isPow2 m.O   -- R/|O| must be exact too: the stored vectors can be exact while the per-observation values were rounded
   let rtOf := fun (bl : List Rat) => exact && dyadicList bl
   let cond := condRun (fun prev c => condPbviStep m rtOf prev bs c) mv
   return wholeRun "PBVI" m bs v mv cond
+
+/-- `pbviw pomdp explicit nB beliefs h | v0 | vf` : PBVI warm start against `pbviRunFrom`.  Clauses on the implementation's own
+    output (`pbvi_warm_levels`): the warm start is kept verbatim as a prefix, `h` lists are appended, and from the warm
+    start's last list upward the result is a plan over its links (shape, one-step derivation, execution). -/
+def pbviw : P String := do
+  let m ← pomdpP; let expl ← P.bool; let bs ← P.list P.qs; let h ← P.nat; P.bar
+  let v0 ← vfP; P.bar
+  let v ← vfP; P.eof
+  let vd : Verdict := { tag := "pbviw" }
+  if v0.isEmpty || (vlist v0 (v0.length - 1)).isEmpty then return "skip empty_warm_start" else
+  let k := v0.length - 1
+  let vd := vd.failIf (v.take v0.length != v0) "PBVI warm_start_not_kept"
+  let vd := vd.failIf (v.length != v0.length + h) s!"PBVI warm_start_levels got={v.length} want={v0.length + h}"
+  if !vd.fails.isEmpty then return vd.render else
+  let vs := v.drop k
+  let mvs := if expl then (pbviRunFrom m (bs.map bfun) v0 h).drop k else vs
+  let exact := match vs with | [] => false | w0 :: rest => consistentFrom eqQ m w0 rest
+  let exact := exact && isPow2 m.O   -- R/|O| must be exact too: the stored vectors can be exact while the per-observation values were rounded
+  let rtOf := fun (bl : List Rat) => exact && dyadicList bl
+  let cond := if expl then condRun (fun prev c => condPbviStep m rtOf prev bs c) mvs else {}
+  -- beliefs for the execution clause: the explicit list, or the corners
+  let ebs := if expl then bs else (List.range m.S).map (fun s => (List.range m.S).map (fun i => if i = s then (1 : Rat) else 0))
+  return wholeRun "PBVI" m ebs vs mvs cond (if expl then "pbviw" else "pbviw generated_beliefs")
+
+/-- `ip pomdp prev | level | walked nCalls {in out}*` : one IncrementalPruning timestep against `ipStep`, the Pruner being the
+    oracle whose answers the harness logged along the library's own loop (looked up by input list) -/
+def ip : P String := do
+  let m ← pomdpP; let prev ← vlistP; P.bar
+  let level ← vlistP; P.bar
+  let walked ← P.bool; let n ← P.nat
+  let calls ← P.rep (do let i ← vlistP; let o ← vlistP; pure (i, o)) n; P.eof
+  let vd : Verdict := { tag := "ip" }
+  -- property clauses on the implementation's own level
+  let vd := match checkLevels m prev [level] with
+    | some (_, what, dev) => vd.failIf true s!"IncrementalPruning {what} dev={qstr dev}"
+    | none => vd
+  -- every logged Pruner answer keeps whole entries of its input (pruner_moves_whole_entries)
+  let vd := vd.failIf (!(calls.all (fun c => subMultiset c.2 c.1))) "Pruner entries_not_moved_whole"
+  -- ... and never empties a non-empty list: with these two facts `ip_consistent` applies to the run with THIS pruner
+  let vd := vd.failIf (!(calls.all (fun c => c.1.isEmpty || !c.2.isEmpty))) "Pruner emptied_a_list"
+  if !vd.fails.isEmpty then return vd.render
+  -- misses are counted through a sentinel: an input list the library never handed to its Pruner comes back untouched
+  let pr := fun (l : VList) => match calls.find? (fun c => sameVList c.1 l) with | some c => c.2 | none => l
+  let mlevel := ipStep m pr prev
+  if sameVList mlevel level then return ({ vd with tag := if walked then "ip" else "ip unwalked" }).render
+  if !walked then return (vd.diffIf true s!"IncrementalPruning replay_diverged the library's level is not what its own loop, walked with its own kernels, produces").render
+  return (vd.diffIf true s!"IncrementalPruning model_differs sizes model={mlevel.length} impl={level.length}").render
+
+structure LPCall where
+  uLen : Nat
+  v : List Rat
+  ans : Option (List Rat)
+
+def lpCallP : P LPCall := do
+  let u ← P.nat; let v ← P.qs; let has ← P.bool
+  if has then do let b ← P.qs; pure ⟨u, v, some b⟩ else pure ⟨u, v, none⟩
+
+def closeVec (x y : List Rat) : Bool := x.length == y.length && (x.zip y).all (fun p => closeQ tol p.1 p.2)
+
+/-- `wt pomdp prev | level | walked {nCalls {uLen v has [b]}*}*A in out` : one Witness timestep against `witnessAction` (per action)
+    and the final prune, the witness LP being the oracle whose answers the harness logged along the library's own loop
+    (looked up by |U[a]| and the agenda vector) -/
+def wt : P String := do
+  let m ← pomdpP; let prev ← vlistP; P.bar
+  let level ← vlistP; P.bar
+  let walked ← P.bool
+  let calls ← P.rep (P.list lpCallP) m.A
+  let pin ← vlistP; let pout ← vlistP; P.eof
+  let vd : Verdict := { tag := "wt" }
+  let vd := match checkLevels m prev [level] with
+    | some (_, what, dev) => vd.failIf true s!"Witness {what} dev={qstr dev}"
+    | none => vd
+  let vd := vd.failIf (!(subMultiset pout pin)) "Pruner entries_not_moved_whole"
+  let vd := vd.failIf (!pin.isEmpty && pout.isEmpty) "Pruner emptied_a_list"
+  -- the hypothesis of `witness_consistent` on the LP, checked on its own answers: with no optimal row added yet (U[a] empty)
+  -- every query has a witness
+  let vd := vd.failIf (!(calls.all (fun cs => cs.all (fun c => c.uLen != 0 || c.ans.isSome)))) "WitnessLP no_witness_with_empty_set"
+  if !vd.fails.isEmpty then return vd.render
+  let exact := levelB eqQ m prev level
+  let exact := exact && isPow2 m.O   -- R/|O| must be exact too: the stored vectors can be exact while the per-observation values were rounded
+  let witOf := fun (a : Nat) (U : VList) (v : List Rat) =>
+    match (calls.getD a []).find? (fun c => c.uLen == U.length && closeVec c.v v) with
+    | some c => c.ans.map bfun
+    | none => none
+  let fuel := (calls.foldl (fun n cs => max n cs.length) 0) + 2
+  let us := (List.range m.A).map (fun a => witnessAction m (witOf a) fuel prev a)
+  let mw := us.flatMap id
+  let mlevel := if sameVList mw pin then pout else mw      -- the final prune's logged answer
+  -- conditioning: the model re-derives the best vector at every witness point the LP returned
+  let cond := (List.range m.A).foldl (fun (c : Cond) a =>
+      (calls.getD a []).foldl (fun c call => match call.ans with
+        | some b => condRow m prev c (exact && dyadicList b) (bfun b) a
+        | none => c) c) {}
+  if sameVList mlevel level then return ({ vd with tag := (if walked then "wt" else "wt unwalked") ++ (if cond.ties > 0 then " ties" else "") }).render
+  if !walked then return (vd.diffIf true s!"Witness replay_diverged the library's level is not what its own loop, walked with its own kernels, produces").render
+  if illConditioned cond then return s!"skip ill_conditioned wt minMargin={qstr cond.minM} ties={cond.ties}"
+  return (vd.diffIf true s!"Witness model_differs sizes model={us.map (·.length)} unpruned-impl={pin.length} impl={level.length} minMargin={qstr cond.minM}").render
+
+/-- `mk S A O | vf | vf` : `makeValueFunction(S)` and the value function of `Policy(S, A, O)` are the model's `zeroVF S` -/
+def mk : P String := do
+  let S ← P.nat; let _A ← P.nat; let _O ← P.nat; P.bar
+  let v1 ← vfP; P.bar; let v2 ← vfP; P.bar
+  let thrown ← P.tok; let hh ← P.nat; let oo ← P.nat; P.eof
+  let vd : Verdict := { tag := "mk" }
+  let vd := vd.failIf (thrown != "invalid_argument") s!"Policy empty_value_function_accepted thrown={thrown}"
+  let vd := vd.failIf (hh != 0 || oo != _O) s!"Policy default_H_or_O_wrong H={hh} O={oo}"
+  let vd := vd.failIf (v1 != zeroVF S) "makeValueFunction not_the_zero_entry"
+  let vd := vd.failIf (v2 != zeroVF S) "Policy default_value_function_wrong"
+  return vd.render
 
 def handle (toks : List String) : String :=
   let r := match toks with
@@ -385,6 +538,10 @@ def handle (toks : List String) : String :=
     | "pj" :: rest => P.run pj rest
     | "cb" :: rest => P.run cb rest
     | "pbvi" :: rest => P.run pbvi rest
+    | "pbviw" :: rest => P.run pbviw rest
+    | "mk" :: rest => P.run mk rest
+    | "ip" :: rest => P.run ip rest
+    | "wt" :: rest => P.run wt rest
     | "wv" :: rest => P.run wv rest
     | "perseus" :: rest => P.run perseus rest
     | "ls" :: rest => P.run ls rest
